@@ -225,7 +225,7 @@ def dots(l):
     return emp(".".join(str(int(x)) for x in l))
 
 
-def metrics_str(circ, penalty=None):
+def metrics_str(circ, with_eff=True):
     """all metric classes evaluated on the real circuit -> same string as the driver's metricsStr (default penalties)"""
     import graphiq.metrics as met
 
@@ -238,7 +238,8 @@ def metrics_str(circ, penalty=None):
     return ("depth." + exc_str(ev(met.CircuitDepth), str) + "/emit." + exc_str(ev(met.CircuitEmitterCount), str)
             + "/cnot." + exc_str(ev(met.CircuitCnotCount), str) + "/unit." + exc_str(ev(met.CircuitUnitaryCount), str)
             + "/meas." + exc_str(ev(met.CircuitMeasureCount), str) + "/med." + exc_str(ev(met.CircuitMaxEmitDepth), str)
-            + "/reset." + exc_str(ev(met.CircuitMaxEmitResetDepth), str) + "/eff." + exc_str(ev(met.CircuitMaxEmitEffDepth), str))
+            + "/reset." + exc_str(ev(met.CircuitMaxEmitResetDepth), str)
+            + (("/eff." + exc_str(ev(met.CircuitMaxEmitEffDepth), str)) if with_eff else ""))
 
 
 def all_regs(circ):
@@ -275,6 +276,8 @@ def answer(circ, q):
         return "l:" + emp(".".join(sorted(node_str(x) for x in circ.get_node_by_labels(labs))))
     if f[0] == "m":
         return "m:" + metrics_str(circ)
+    if f[0] == "n":
+        return "n:" + metrics_str(circ, with_eff=False)
     return "?"
 
 
@@ -571,11 +574,14 @@ def two_q_token(name, c, t, creg=None):
     return f"{name}:{c[0]}{c[1]}.{t[0]}{t[1]}:{'*' if creg is None else creg}:two-qubit:*"
 
 
-def rand_one_q(rng, t, r, allow_wrapper=True, extra_label_rate=0.05):
+LABEL_POOL = ("mine", "tagA", "Hadamard")  # user labels; "Hadamard" collides with a class name on purpose (C12 only)
+
+
+def rand_one_q(rng, t, r, allow_wrapper=True, extra_label_rate=0.05, label_pool=LABEL_POOL):
     w = rng.random()
     labels = ["one-qubit"]
     if rng.random() < extra_label_rate:
-        labels.append(rng.choice(["mine", "tagA", "Hadamard"]))
+        labels.append(rng.choice(label_pool))
     if allow_wrapper and w < 0.22:
         inner = [rng.choice(ONE_Q[:7]) for _ in range(rng.randrange(1, 4))]
         return one_q_token("OneQubitGateWrapper", t, r, labels, inner)
@@ -590,7 +596,7 @@ def op_nodes(circ):
     return [n for n in circ.dag.nodes if not isinstance(n, str)]
 
 
-def gen_edit(rng, circ, malformed=False, allow_measz=True, max_regs=6):
+def gen_edit(rng, circ, malformed=False, allow_measz=True, max_regs=6, label_pool=LABEL_POOL):
     """a (mostly valid) edit chosen from the implementation's current circuit"""
     regs = {t: len(circ._registers._registers[t]) for t in "epc"}
     qregs = [("e", i) for i in range(regs["e"])] + [("p", i) for i in range(regs["p"])]
@@ -627,7 +633,7 @@ def gen_edit(rng, circ, malformed=False, allow_measz=True, max_regs=6):
             t, r = rng.choice(qregs)
             if rng.random() < 0.08 and regs[t] < max_regs and nreg < 3 * max_regs:
                 r = regs[t]  # a new register
-            return ("A", rand_one_q(rng, t, r))
+            return ("A", rand_one_q(rng, t, r, label_pool=label_pool))
         if v < 0.80 and len(qregs) >= 2:
             a, b = rng.sample(qregs, 2)
             if rng.random() < 0.06 and regs[b[0]] < max_regs:
@@ -642,14 +648,14 @@ def gen_edit(rng, circ, malformed=False, allow_measz=True, max_regs=6):
             c = rng.randrange(regs["c"] + 1) if regs["c"] < max_regs else rng.randrange(max(1, regs["c"]))
             return ("A", f"MeasurementZ:{t}{r}:{c}:one-qubit:*")
         t, r = rng.choice(qregs)
-        return ("A", rand_one_q(rng, t, r))
+        return ("A", rand_one_q(rng, t, r, label_pool=label_pool))
     # ---- insert_at
     if w < 0.55:
         q_edges = [e for t in "ep" for e in circ.edge_dict.get(t, [])]
         if rng.random() < 0.55 or len(q_edges) < 2:
             e = rng.choice(q_edges)
             t, r = parse_reg(e[2])
-            return ("I", rand_one_q(rng, t, r), [e])
+            return ("I", rand_one_q(rng, t, r, label_pool=label_pool), [e])
         for _ in range(8):
             e1 = rng.choice(q_edges)
             inc = circ.find_incompatible_edges(e1)
@@ -662,7 +668,7 @@ def gen_edit(rng, circ, malformed=False, allow_measz=True, max_regs=6):
                 return ("I", two_q_token(rng.choice(TWO_Q[:2]), a, b), [e1, e2])
         e = rng.choice(q_edges)
         t, r = parse_reg(e[2])
-        return ("I", rand_one_q(rng, t, r), [e])
+        return ("I", rand_one_q(rng, t, r, label_pool=label_pool), [e])
     # ---- remove
     if w < 0.70:
         return ("R", rng.choice(nodes))
@@ -672,7 +678,7 @@ def gen_edit(rng, circ, malformed=False, allow_measz=True, max_regs=6):
         op = circ.dag.nodes[n]["op"]
         qs = list(zip(op.q_registers_type, op.q_registers))
         if len(qs) == 1 and not op.c_registers:
-            return ("P", n, rand_one_q(rng, qs[0][0], qs[0][1]))
+            return ("P", n, rand_one_q(rng, qs[0][0], qs[0][1], label_pool=label_pool))
         if len(qs) == 2 and not op.c_registers:
             return ("P", n, two_q_token(rng.choice(TWO_Q[:2]), qs[0], qs[1]))
         if len(qs) == 2:
